@@ -4,11 +4,12 @@ import Qats.Gen.DriverGen
 import Qats.Driver.SN
 import Qats.Driver.Motion
 import Qats.Driver.Dist
+import Qats.Driver.Rebin
 /-! All line-protocol handlers (core Lean only; imported by `Driver.lean`). -/
 namespace Qats.Driver
 
 def handlers : List (List String → Option String) :=
-  [Rainflow.handle, FindReversals.handle, Qats.Gen.handleGen, SN.handle, Motion.handle, Dist.handle]
+  [Rainflow.handle, FindReversals.handle, Qats.Gen.handleGen, SN.handle, Motion.handle, Dist.handle, Rebin.handle]
 
 def dispatch (toks : List String) : String :=
   match handlers.findSome? (fun h => h toks) with
